@@ -21,13 +21,26 @@ pub struct Att {
     pub ch_peer: [c_int; 2], // harness-held other ends
     pub nch: usize,
     pub nreg: usize,
+    pub bytes: [u8; NB], // the payload
+    pub len: usize,
+}
+impl Att {
+    /// the little-endian u64 at payload offset `off` (None if the payload is shorter)
+    pub fn word(&self, off: usize) -> Option<u64> {
+        if off + 8 > self.len {
+            return None;
+        }
+        let mut b = [0u8; 8];
+        b.copy_from_slice(&self.bytes[off..off + 8]);
+        Some(u64::from_le_bytes(b))
+    }
 }
 
 /// message with `len<=NB` symbolic bytes, `nch<=2` socket attachments, `nreg<=2` regions
 pub fn garbage_message(nch: usize, nreg: usize) -> (OpaqueIpcMessage, Att) {
     let bytes: [u8; NB] = kani::any();
     let len: usize = any_usize_in(0, NB);
-    let mut att = Att { ch_obj: [-1; 2], ch_peer: [-1; 2], nch, nreg };
+    let mut att = Att { ch_obj: [-1; 2], ch_peer: [-1; 2], nch, nreg, bytes, len };
     let mut ch = Vec::new();
     let mut i = 0;
     while i < nch {
@@ -131,6 +144,9 @@ fn shm(nreg: usize) {
             s.len() == 0 || (s.len() == 3 && (s[0] as usize) >= 7 && (s[0] as usize) < 7 + nreg && s[2] == 9),
             "C16-FOREIGN: decoded a region that was not attached"
         );
+        // the empty region travels as the index usize::MAX; any other index that names no (unused) attached
+        // region is "out of range or used twice" and must be an error, not an empty region
+        assert!(s.len() != 0 || att.word(0) == Some(u64::MAX), "C16-RANGE: an index that names no attached region decoded as an (empty) region");
     }
     drop(r);
     finish(&att);
@@ -143,6 +159,8 @@ fn shm_pair(nreg: usize) {
     crate::witness!(r.is_err(), "WITNESS:REACH_ERR");
     if let Ok((a, b)) = &r {
         assert!(a.len() == 0 || b.len() == 0 || a[0] != b[0], "C16-TWICE: one region handed out twice");
+        assert!(a.len() != 0 || att.word(0) == Some(u64::MAX), "C16-RANGE: an index that names no unused attached region decoded as an (empty) region");
+        assert!(b.len() != 0 || att.word(8) == Some(u64::MAX), "C16-RANGE: an index that names no unused attached region decoded as an (empty) region");
     }
     drop(r);
     finish(&att);
